@@ -223,6 +223,8 @@ fn pick_type(k: u64, rng: &mut Rng) -> Type {
         5 if (k / 8) % 4 == 0 => vector_type(2 + rng.below(3), if rng.chance(1, 2) { scalar_type(*rng.pick(&[UINT64, INT64, UINT128, INT128])) } else { array_type(vec![1 + rng.below(3)], *rng.pick(&[UINT32, UINT64, INT128])) }),
         5 if (k / 8) % 2 == 0 => vector_type(rng.below(4), random_type(rng, 1)),
         5 => named_tuple_type(vec![("key".to_string(), random_type(rng, 1)), ("val".to_string(), array_type(random_shape(rng), *rng.pick(&ALL_ST))), ("n".to_string(), scalar_type(*rng.pick(&ALL_ST)))]),
+        // a secret whose own type looks like a share triple: three components of one type
+        6 if (k / 8) % 3 == 0 => { let t = if rng.chance(1, 2) { scalar_type(*rng.pick(&ALL_ST)) } else { array_type(random_shape(rng), *rng.pick(&ALL_ST)) }; tuple_type(vec![t.clone(), t.clone(), t]) }
         6 => tuple_type(vec![random_type(rng, 1), array_type(vec![1 + rng.below(20)], BIT), random_type(rng, 2)]),
         _ => random_type(rng, 3),
     }
